@@ -11,7 +11,7 @@ Three ingredients, none of which runs the repository:
    `startswith` on a computed string, `match` and enum `.value` are understood; anything else makes the class *undecided* (listed, never guessed).
 3. *Derivability* (`sentential.CFG`): an Earley recogniser for sentential forms of the reader's grammar.
 
-Obligations: every search prints a `selector_length` (that is what `atom` admits inside embedded Python); every line `FandangoSpec.__repr__`
+Obligations: every search prints an `expression` of embedded Python (its text stands for an atom, Python's trailers may follow); every line `FandangoSpec.__repr__`
 emits for a constraint is a `constraint`.
 """
 
@@ -28,6 +28,9 @@ from .. import sentential
 from ..sentential import Sym
 
 SEARCH = "fandango.language.search"
+# the text of a search stands where embedded Python admits an atom, and what follows it may be taken up by Python's own rules (`<a>[0][1]` is the
+# selection `<a>[0]` subscripted by Python): the obligation is that the text is an expression, not that it is a selector_length by itself
+SEARCH_RULE = "expression"
 CONVERT = "fandango.language.parse.convert"
 
 
@@ -656,13 +659,13 @@ def printer_reader_rule(chk: Check, eng: Engine, rule: str) -> None:
                             seen.add(key)
                             for form in pr.forms(c, fill):
                                 who = ", ".join(f"{k}={v[0]}" for k, v in sorted(fill.items()) if isinstance(v, tuple) and k in fields)
-                                if check_form(chk, eng, rule, cfg, c, "selector_length", form, who):
+                                if check_form(chk, eng, rule, cfg, c, SEARCH_RULE, form, who):
                                     got.append(form)  # only text the reader accepts is nested further (no follow-up reports)
             except Undecided as u:
                 undecided[name] = str(u)
                 continue
             if not fields:
-                got = [form for form in got if check_form(chk, eng, rule, cfg, c, "selector_length", form, "")]
+                got = [form for form in got if check_form(chk, eng, rule, cfg, c, SEARCH_RULE, form, "")]
             new[name] = list(dict.fromkeys(got))
         for k, v in new.items():
             level[k] = list(dict.fromkeys(level.get(k, []) + v))[:6]
